@@ -66,3 +66,308 @@ Proof.
 Qed.
 
 End Rows.
+
+Lemma drop_single_idem : forall l, drop_single (drop_single l) = drop_single l.
+Proof.
+  induction l as [|d l IH]; [reflexivity|]. unfold drop_single in *. cbn [filter].
+  destruct (negb (d_single d)) eqn:E; cbn [filter]; [rewrite E; now f_equal | exact IH].
+Qed.
+
+Lemma cdeps_drop : forall r, cdeps r = filter (fun d => negb (d_order d)) (drop_single (res_deps r)).
+Proof.
+  intros r. unfold cdeps, drop_single. induction (res_deps r) as [|d l IH]; [reflexivity|]. cbn [filter].
+  destruct d as [dk [|] [|]]; cbn in *; rewrite ?IH; reflexivity.
+Qed.
+
+Lemma cdeps_eq : forall r r', drop_single (res_deps r') = drop_single (res_deps r) -> cdeps r' = cdeps r.
+Proof. intros r r' H. rewrite !cdeps_drop. now rewrite H. Qed.
+
+Lemma in_cdeps : forall r d, In d (cdeps r) <-> In d (res_deps r) /\ d_order d = false /\ d_single d = false.
+Proof.
+  intros r d. unfold cdeps. rewrite filter_In. rewrite andb_true_iff, !negb_true_iff. tauto.
+Qed.
+
+Lemma in_drop_single : forall l d, In d (drop_single l) <-> In d l /\ d_single d = false.
+Proof. intros l d. unfold drop_single. rewrite filter_In, negb_true_iff. tauto. Qed.
+
+Lemma stored_update_quiet : forall m k r' y, res_value r' = res_value (get m k) -> stored (update m k r') y = stored m y.
+Proof.
+  intros m k r' y H. unfold stored. destruct (N.eq_dec y k) as [->|Hne].
+  - now rewrite get_update_same.
+  - now rewrite get_update_other.
+Qed.
+
+Lemma computed_update_quiet : forall m k r' y, res_computedAt r' = res_computedAt (get m k) ->
+  res_computedAt (get (update m k r') y) = res_computedAt (get m y).
+Proof.
+  intros m k r' y H. destruct (N.eq_dec y k) as [->|Hne].
+  - now rewrite get_update_same.
+  - now rewrite get_update_other.
+Qed.
+
+Section RowExt.
+Variable rules : key -> rule.
+Variable F : key -> N -> list value -> list N -> N -> N.
+
+(* a row only matters through its value, signature, builtAt and non-single-use dependencies *)
+Lemma row_ok_row_ext : forall m x r r',
+  res_value r' = res_value r -> res_sig r' = res_sig r -> res_builtAt r' = res_builtAt r ->
+  drop_single (res_deps r') = drop_single (res_deps r) ->
+  row_ok rules F m x r -> row_ok rules F m x r'.
+Proof.
+  intros m x r r' Hv Hs Hb Hd Hok. unfold row_ok in *. rewrite Hv, Hs, Hb, Hd.
+  intros H1 H2. destruct (Hok H1 H2) as (v & Hv' & Ho & Hdd & Hcl). exists v.
+  split; [exact Hv'|]. split; [exact Ho|]. split; [exact Hdd|].
+  pose proof (cdeps_eq r r' Hd) as Hc.
+  unfold fresh_deps, row_concl in *. rewrite Hc, Hb. exact Hcl.
+Qed.
+End RowExt.
+
+Section St.
+Variable rules : key -> rule.
+Variable env : key -> N.
+Variable F : key -> N -> list value -> list N -> N -> N.
+Variable order : N -> key -> list dep -> list dep.
+Variable rank : key -> nat.
+Hypothesis Hrank : wf_rank rules rank.
+Hypothesis Hdisc : wf_disc rules.
+Hypothesis Horder : wf_order order.
+
+Local Notation G := (Good rules env F rank).
+Local Notation cvk := (cvk rules env F rank).
+
+(* L2: replacing a memory row by an equivalent one (the single-use cleaning of scanRule) *)
+Lemma Good_set_mem_quiet : forall E s k r',
+  res_value r' = res_value (get (st_mem s) k) -> res_sig r' = res_sig (get (st_mem s) k) ->
+  res_computedAt r' = res_computedAt (get (st_mem s) k) -> res_builtAt r' = res_builtAt (get (st_mem s) k) ->
+  drop_single (res_deps r') = drop_single (res_deps (get (st_mem s) k)) ->
+  G E s -> G E (set_mem s k r').
+Proof.
+  intros E s k r' Hv Hs Hc Hb Hd (Hbnd & Hsync & Hrows & Hcl & Hcur & Hex).
+  assert (Hdone : forall x, done (set_mem s k r') x <-> done s x).
+  { intros x. unfold done, set_mem; cbn. destruct (N.eq_dec x k) as [->|Hne].
+    - rewrite get_update_same. now rewrite Hb.
+    - now rewrite get_update_other. }
+  assert (Hcd : forall x, cdeps (get (update (st_mem s) k r') x) = cdeps (get (st_mem s) x)).
+  { intros x. destruct (N.eq_dec x k) as [->|Hne].
+    - rewrite get_update_same. now apply cdeps_eq.
+    - now rewrite get_update_other. }
+  unfold Good. repeat apply conj.
+  - intros x. unfold set_mem; cbn. specialize (Hbnd x). destruct (N.eq_dec x k) as [->|Hne].
+    + rewrite get_update_same. now rewrite Hc, Hb.
+    + now rewrite get_update_other.
+  - intros x. unfold set_mem; cbn. specialize (Hsync x). cbn zeta in Hsync. destruct (N.eq_dec x k) as [->|Hne].
+    + rewrite get_update_same. now rewrite Hv, Hs, Hc, Hb, Hd.
+    + now rewrite get_update_other.
+  - intros x Hx. unfold set_mem; cbn. specialize (Hrows x Hx).
+    apply row_ok_quiet with (m := st_mem s).
+    + intros y. now apply stored_update_quiet.
+    + intros y. now apply computed_update_quiet.
+    + destruct (N.eq_dec x k) as [->|Hne].
+      * rewrite get_update_same. now apply row_ok_row_ext with (r := get (st_mem s) k).
+      * now rewrite get_update_other.
+  - intros x Hx Hdx d Hin. apply Hdone. apply Hdone in Hdx. unfold set_mem in Hin; cbn in Hin.
+    rewrite Hcd in Hin. now apply (Hcl x Hx Hdx).
+  - intros x Hdx. apply Hdone in Hdx. unfold set_mem; cbn. rewrite stored_update_quiet by exact Hv. now apply Hcur.
+  - intros x Hx. apply Hdone. now apply Hex.
+Qed.
+
+(* ---------- complete inputs hold clean values ---------- *)
+
+Lemma stored_clean : forall s l, current rules env F rank s -> (forall x, In x l -> done s x) ->
+  map (stored (st_mem s)) l = map cvk l.
+Proof. intros s l Hcur Hl. apply map_ext_in. intros x Hx. apply Hcur. now apply Hl. Qed.
+
+Lemma cvk_stamp : forall x, r_obs (rules x) = true -> snd (payload_of (cvk x)) = env x.
+Proof.
+  intros x Ho. pose proof (cvk_unfold rules env F rank Hrank x) as H. cbn zeta in H. rewrite H. cbn.
+  unfold obs. now rewrite Ho.
+Qed.
+
+Lemma stamps_clean : forall s l, current rules env F rank s -> (forall x, In x l -> done s x) ->
+  (forall x, In x l -> r_obs (rules x) = true) -> map (stamp_of (st_mem s)) l = map env l.
+Proof.
+  intros s l Hcur Hl Ho. apply map_ext_in. intros x Hx. unfold stamp_of. rewrite (Hcur x) by now apply Hl.
+  apply cvk_stamp. now apply Ho.
+Qed.
+
+Lemma cvk_value : forall k,
+  let rl := rules k in
+  let bk := branch_keys rl (map cvk (r_req rl)) in
+  cvk k = Some (F k (r_sig rl) (map payload_of (map cvk (r_req rl) ++ map cvk bk)) (map env (r_disc rl)) (obs rules env k),
+                obs rules env k).
+Proof.
+  intros k rl bk. pose proof (cvk_unfold rules env F rank Hrank k) as H. cbn zeta in H. fold rl in H. fold bk in H.
+  rewrite H. rewrite map_app, !map_map. reflexivity.
+Qed.
+
+(* a row whose recorded inputs are all complete, and whose conclusion holds, stores the clean value *)
+Lemma concl_clean : forall s k r v, current rules env F rank s ->
+  row_concl rules F (st_mem s) k r v ->
+  (forall d, In d (cdeps r) -> done s (d_key d)) ->
+  snd v = obs rules env k -> Some v = cvk k.
+Proof.
+  intros s k r v Hcur [Hv Hin] Hd Hsnd. cbn zeta in *.
+  assert (Hdone : forall x, In x (r_req (rules k) ++
+                    branch_keys (rules k) (map (stored (st_mem s)) (r_req (rules k))) ++ r_disc (rules k)) -> done s x).
+  { intros x Hx. apply (Hd _ (Hin x Hx)). }
+  rewrite (stored_clean s (r_req (rules k))) in * by (auto; intros x Hx; apply Hdone, in_or_app; now left).
+  set (bk := branch_keys (rules k) (map cvk (r_req (rules k)))) in *.
+  rewrite (stored_clean s bk) in Hv by (auto; intros x Hx; apply Hdone, in_or_app; right; apply in_or_app; now left).
+  rewrite (stamps_clean s (r_disc (rules k))) in Hv; auto.
+  - rewrite cvk_value. fold bk. rewrite <- Hsnd, <- Hv. now destruct v.
+  - intros x Hx. apply Hdone, in_or_app; right; apply in_or_app; now right.
+  - intros x Hx. now apply (Hdisc k).
+Qed.
+
+(* conversely: a row that stores the clean value and records its inputs, all complete, satisfies the conclusion *)
+Lemma concl_of_clean : forall s k r v, current rules env F rank s ->
+  let bk := branch_keys (rules k) (map cvk (r_req (rules k))) in
+  (forall x, In x (r_req (rules k) ++ bk ++ r_disc (rules k)) -> done s x) ->
+  (forall x, In x (r_req (rules k) ++ bk ++ r_disc (rules k)) -> In (mkDep x false false) (cdeps r)) ->
+  Some v = cvk k ->
+  row_concl rules F (st_mem s) k r v.
+Proof.
+  intros s k r v Hcur bk Hdone Hin Hv. unfold row_concl. cbn zeta.
+  rewrite (stored_clean s (r_req (rules k))) by (auto; intros x Hx; apply Hdone, in_or_app; now left).
+  fold bk.
+  rewrite (stored_clean s bk) by (auto; intros x Hx; apply Hdone, in_or_app; right; apply in_or_app; now left).
+  rewrite (stamps_clean s (r_disc (rules k))); auto.
+  - split; [|exact Hin]. rewrite cvk_value in Hv. fold bk in Hv. inversion Hv. reflexivity.
+  - intros x Hx. apply Hdone, in_or_app; right; apply in_or_app; now right.
+  - intros x Hx. now apply (Hdisc k).
+Qed.
+
+Lemma valid_stamp : forall k r v, valid rules env k r = true -> res_value r = Some v ->
+  (r_obs (rules k) = false -> snd v = 0) -> snd v = obs rules env k.
+Proof.
+  intros k r v Hval Hv Ho. unfold valid in Hval. unfold obs. destruct (r_obs (rules k)).
+  - rewrite Hv in Hval. now apply N.eqb_eq in Hval.
+  - now apply Ho.
+Qed.
+
+Lemma row_concl_row_ext : forall m k r r' v, cdeps r' = cdeps r ->
+  row_concl rules F m k r v -> row_concl rules F m k r' v.
+Proof. intros m k r r' v Hc H. unfold row_concl in *. now rewrite Hc. Qed.
+
+(* L3: a scan that found nothing to do marks the key complete, in memory only *)
+Lemma Good_mark : forall E s k r,
+  G E s -> get (st_mem s) k = r -> ~ done s k ->
+  res_builtAt r <> 0 -> res_sig r = r_sig (rules k) -> valid rules env k r = true ->
+  fresh_deps (st_mem s) r -> (forall d, In d (cdeps r) -> done s (d_key d)) ->
+  G E (set_mem s k (mkRes (res_value r) (res_sig r) (res_computedAt r) (st_epoch s) (res_deps r))).
+Proof.
+  intros E s k r (Hbnd & Hsync & Hrows & Hcl & Hcur & Hex) Hr Hnd Hb Hs Hval Hfresh Hdeps.
+  set (r' := mkRes _ _ _ _ _).
+  assert (HkE : ~ E k) by (intros H; apply Hnd; now apply Hex).
+  assert (Hdone : forall x, done (set_mem s k r') x <-> x = k \/ done s x).
+  { intros x. unfold done, set_mem; cbn. destruct (N.eq_dec x k) as [->|Hne].
+    - rewrite get_update_same. cbn. tauto.
+    - rewrite get_update_other by exact Hne. tauto. }
+  assert (Hcd : cdeps r' = cdeps r) by reflexivity.
+  destruct (Hrows k HkE) as (v & Hv & Ho & Hdd & Hconcl); [now rewrite Hr | now rewrite Hr |].
+  rewrite Hr in *. specialize (Hconcl Hfresh).
+  assert (Hclean : Some v = cvk k).
+  { apply concl_clean with (s := s) (r := r); auto. now apply valid_stamp with (r := r). }
+  assert (Hst : forall y, stored (update (st_mem s) k r') y = stored (st_mem s) y).
+  { intros y. apply stored_update_quiet. now rewrite Hr. }
+  assert (Hca : forall y, res_computedAt (get (update (st_mem s) k r') y) = res_computedAt (get (st_mem s) y)).
+  { intros y. apply computed_update_quiet. now rewrite Hr. }
+  unfold Good. repeat apply conj.
+  - intros x. unfold set_mem; cbn. specialize (Hbnd x). destruct (N.eq_dec x k) as [->|Hne].
+    + rewrite get_update_same. rewrite Hr in Hbnd. cbn. lia.
+    + now rewrite get_update_other.
+  - intros x. unfold set_mem; cbn. specialize (Hsync x). cbn zeta in Hsync. destruct (N.eq_dec x k) as [->|Hne].
+    + rewrite get_update_same. rewrite Hr in Hsync. cbn. specialize (Hbnd k). rewrite Hr in Hbnd.
+      repeat split; try tauto. lia.
+    + now rewrite get_update_other.
+  - intros x Hx. unfold set_mem; cbn. destruct (N.eq_dec x k) as [->|Hne].
+    + rewrite get_update_same. intros _ _. exists v. split; [exact Hv|]. split; [exact Ho|]. split; [exact Hdd|].
+      intros _. apply row_concl_row_ext with (r := r); [exact Hcd|].
+      apply row_concl_transfer with (m := st_mem s); [exact Hconcl | intros; apply Hst].
+    + rewrite get_update_other by exact Hne. apply row_ok_quiet with (m := st_mem s); auto.
+  - intros x Hx Hdx d Hin. apply Hdone. unfold set_mem in Hin; cbn in Hin. destruct (N.eq_dec x k) as [->|Hne].
+    + rewrite get_update_same in Hin. right. now apply Hdeps.
+    + rewrite get_update_other in Hin by exact Hne. right. apply (Hcl x Hx); [|exact Hin].
+      apply Hdone in Hdx. tauto.
+  - intros x Hdx. unfold set_mem; cbn. rewrite Hst. apply Hdone in Hdx. destruct Hdx as [->|Hdx].
+    + unfold stored. now rewrite Hr, Hv.
+    + now apply Hcur.
+  - intros x Hx. apply Hdone. right. now apply Hex.
+Qed.
+
+(* ---------- complete ---------- *)
+
+Definition complete_row (e : N) (k : key) (rl : rule) (r : result) (bk : list key) (v : value) : result :=
+  mkRes (Some v) (r_sig rl)
+        (if match res_value r with Some old => negb (value_eqb old v) | None => true end then e else res_computedAt r)
+        e (order e k (requested_deps rl bk) ++ map (fun x => mkDep x false false) (r_disc rl)).
+
+Lemma complete_mem : forall s k rl r bk v,
+  st_mem (complete order s k rl r bk v) = update (st_mem s) k (complete_row (st_epoch s) k rl r bk v).
+Proof. reflexivity. Qed.
+Lemma complete_db : forall s k rl r bk v,
+  st_db (complete order s k rl r bk v) = update (st_db s) k (complete_row (st_epoch s) k rl r bk v).
+Proof. reflexivity. Qed.
+
+(* the computedAt of a completed row: unchanged value => unchanged, else the current epoch *)
+Lemma complete_row_cases : forall e k rl r bk v,
+  let r' := complete_row e k rl r bk v in
+  (res_value r' = res_value r /\ res_computedAt r' = res_computedAt r) \/ res_computedAt r' = e.
+Proof.
+  intros e k rl r bk v. cbn. destruct (res_value r) as [old|]; [|now right].
+  destruct (value_eqb old v) eqn:Ev; cbn; [left | now right].
+  apply value_eqb_eq in Ev. now subst.
+Qed.
+
+Lemma complete_row_computed_le : forall e k rl r bk v, res_computedAt r <= e ->
+  res_computedAt (complete_row e k rl r bk v) <= e.
+Proof.
+  intros e k rl r bk v H. cbn. destruct (match res_value r with Some old => negb (value_eqb old v) | None => true end); lia.
+Qed.
+
+(* L4: the task of k finished; k enters its window (exempt from [rows] and [closed]) *)
+Lemma Good_complete : forall E s k r bk v,
+  G E s -> get (st_mem s) k = r -> ~ done s k -> Some v = cvk k ->
+  G (fun x => x = k \/ E x) (complete order s k (rules k) r bk v).
+Proof.
+  intros E s k r bk v (Hbnd & Hsync & Hrows & Hcl & Hcur & Hex) Hr Hnd Hv.
+  set (s6 := complete order s k (rules k) r bk v).
+  set (r' := complete_row (st_epoch s) k (rules k) r bk v).
+  assert (Hm : st_mem s6 = update (st_mem s) k r') by reflexivity.
+  assert (Hdb : st_db s6 = update (st_db s) k r') by reflexivity.
+  assert (He : st_epoch s6 = st_epoch s) by reflexivity.
+  assert (Hdone : forall x, done s6 x <-> x = k \/ done s x).
+  { intros x. unfold done. rewrite Hm, He. destruct (N.eq_dec x k) as [->|Hne].
+    - rewrite get_update_same. cbn. tauto.
+    - rewrite get_update_other by exact Hne. tauto. }
+  assert (Hrle : res_computedAt r <= st_epoch s) by (specialize (Hbnd k); rewrite Hr in Hbnd; lia).
+  unfold Good. repeat apply conj.
+  - intros x. rewrite Hm, Hdb, He. specialize (Hbnd x). destruct (N.eq_dec x k) as [->|Hne].
+    + rewrite !get_update_same. pose proof (complete_row_computed_le (st_epoch s) k (rules k) r bk v Hrle) as Hle.
+      fold r' in Hle. assert (res_builtAt r' = st_epoch s) by reflexivity. lia.
+    + now rewrite !get_update_other.
+  - intros x. rewrite Hm, Hdb. specialize (Hsync x). cbn zeta in *. destruct (N.eq_dec x k) as [->|Hne].
+    + rewrite !get_update_same. repeat split; auto. lia.
+    + now rewrite !get_update_other.
+  - intros x Hx. assert (Hne : x <> k) by tauto. assert (HxE : ~ E x) by tauto.
+    rewrite Hm. rewrite get_update_other by exact Hne. specialize (Hrows x HxE).
+    pose proof (complete_row_cases (st_epoch s) k (rules k) r bk v) as Hcase. cbn zeta in Hcase. fold r' in Hcase.
+    destruct Hcase as [[Hv1 Hc1]|Hc2].
+    + apply row_ok_quiet with (m := st_mem s); auto.
+      * intros y. apply stored_update_quiet. now rewrite Hr.
+      * intros y. apply computed_update_quiet. now rewrite Hr.
+    + apply row_ok_changed with (m := st_mem s) (k := k); auto.
+      * intros y Hy. now apply get_update_other.
+      * intros Hin. rewrite get_update_same, Hc2. apply in_map_iff in Hin. destruct Hin as [d [Hdk Hd]].
+        destruct (done_dec s x) as [Hdx|Hndx].
+        -- exfalso. apply Hnd. rewrite <- Hdk. now apply (Hcl x HxE Hdx).
+        -- unfold done in Hndx. specialize (Hbnd x). lia.
+  - intros x Hx Hdx d Hin. assert (Hne : x <> k) by tauto. assert (HxE : ~ E x) by tauto.
+    rewrite Hm in Hin. rewrite get_update_other in Hin by exact Hne. apply Hdone. right.
+    apply (Hcl x HxE); [|exact Hin]. apply Hdone in Hdx. tauto.
+  - intros x Hdx. rewrite Hm. apply Hdone in Hdx. unfold stored. destruct (N.eq_dec x k) as [->|Hne].
+    + rewrite get_update_same. cbn. exact Hv.
+    + rewrite get_update_other by exact Hne. apply Hcur. tauto.
+  - intros x [->|Hx]; apply Hdone; [now left | right; now apply Hex].
+Qed.
